@@ -259,8 +259,12 @@ class sequence_variables:
                 else:
                     half = count // 2
                     try:
-                        data['median-%s' %
-                             name] = (values[half] + values[half - 1]) // 2
+                        median = values[half] + values[half - 1]
+                        if isinstance(median, int):
+                            median = median // 2
+                        else:
+                            median = median / 2
+                        data['median-%s' % name] = median
                     except Exception:
                         try:
                             data['median-%s' %
